@@ -112,6 +112,25 @@ func (a *accSim) apply(idxs []int, nadd int) {
 			}
 		}
 	}
+	// an element added by this block already carries its proof: giving it to the same update (as a wallet that updates
+	// everything it holds does) must leave it as it is
+	for j := 0; j < nadd; j++ {
+		l := &cur.leaves[base+j]
+		cp := l.se.Copy()
+		if pan, msg := try(func() { eau.UpdateElementProof(&cp) }); pan {
+			r.violate("c05.update-new-element-panic", "UpdateElementProof panicked (%s) for the new leaf %d on history %s + [upd %v add %d]", msg, base+j, a.describe(), idxs, nadd)
+			return
+		}
+		same := cp.LeafIndex == l.se.LeafIndex && len(cp.MerkleProof) == len(l.se.MerkleProof)
+		for k := 0; same && k < len(cp.MerkleProof); k++ {
+			same = cp.MerkleProof[k] == l.se.MerkleProof[k]
+		}
+		if !same {
+			r.violate("c05.update-new-element", "UpdateElementProof changed the proof of the new leaf %d on history %s + [upd %v add %d]", base+j, a.describe(), idxs, nadd)
+			return
+		}
+		r.count("oracle-new-element-untouched")
+	}
 	a.emitUpdate(a.tip(), &cur, isUpd)
 	a.states = append(a.states, cur)
 	a.blocks = append(a.blocks, blk)
